@@ -158,3 +158,169 @@ def o_C07(x, ctx):
 
 
 ORACLES = {'C01': o_C01, 'C02': o_C02, 'C06': o_C06, 'C07': o_C07}
+
+
+# ---------------------------------------------------------------------------------------------
+def config_check(x, ctx):
+    ic = impl_config(ctx.dst_canon(x), ctx.z)
+    mc = x.mworld.config()
+    if ic != mc:
+        return [('config', f'configuration after the call impl {ic} model {mc}')]
+    return []
+
+
+def o_C08(x, ctx):
+    """history: which substates are (re-)entered and which configuration results"""
+    out = []
+    a = proj(x.trace, ctx.cfg, 'N')
+    b = proj(x.mtrace, ctx.cfg, 'N')
+    # the machine's own entry may carry the back-end's wrapper event type; C08 is about which states
+    a = [(k[0], k[1], k[2]) for k in a]
+    b = [(k[0], k[1], k[2]) for k in b]
+    d = first_diff(a, b)
+    if d >= 0:
+        out.append(('restored-states', f'entry behaviours differ at #{d}: impl [{fmt(a)}] model [{fmt(b)}]'))
+        return out
+    return config_check(x, ctx)
+
+
+def o_C09(x, ctx):
+    """explicit entry / fork / entry point / exit point: entry+exit log with the event seen by the
+    substates, guard/action of the connected rows, resulting configuration"""
+    out = []
+    own = {m.own_sid for m in ctx.z.machines()}
+
+    def pr(trace):
+        r = []
+        for t in trace:
+            if t.K not in 'GANXT':
+                continue
+            k = norm_tok(t, ctx.cfg)
+            if t.K == 'N' and t.id in own:
+                k = (k[0], k[1], k[2], 'own', k[4], k[5])   # the machine's own entry: event type not part of C09
+            r.append(k)
+        return r
+    a = pr(x.trace)
+    b = pr(x.mtrace)
+    d = first_diff(a, b)
+    if d >= 0:
+        out.append(('pseudo-state', f'entry/exit/guard/action log differs at #{d}: impl [{fmt(a)}] model [{fmt(b)}]'))
+        return out
+    return config_check(x, ctx)
+
+
+def o_C03(x, ctx):
+    """entry/exit alternate (ledger), stop() exits each active state once innermost first, start()
+    after stop() re-enters; introspection agreement is a state oracle (s_C03)"""
+    out = []
+    if x.ledger != '-':
+        out.append(('ledger', f'entry/exit ledger: {x.ledger}'))
+    if x.op in ('start', 'stop'):
+        a = proj(x.trace, ctx.cfg, 'NX')
+        b = proj(x.mtrace, ctx.cfg, 'NX')
+        a = [(k[0], k[1], k[2]) for k in a]
+        b = [(k[0], k[1], k[2]) for k in b]
+        d = first_diff(a, b)
+        if d >= 0:
+            out.append((x.op, f'{x.op}() entry/exit sequence differs at #{d}: impl [{fmt(a)}] model [{fmt(b)}]'))
+    return out
+
+
+def s_C03(sid, canon, intro, ctx):
+    """at every quiescent state: exactly one active state per region of every active machine, in
+    that region; every introspection API describes exactly the ledger's set; ids as documented"""
+    out = []
+    z = ctx.z
+    f = snapshot_fields(canon)
+    led = f.get('ledger', {})
+    inside = {s for s, v in led.items() if v == 1}
+    bad = {s: v for s, v in led.items() if v not in (0, 1)}
+    if bad:
+        out.append(('ledger', f'entry-minus-exit counts outside {{0,1}}: {bad}'))
+    started = f.get('started', False)
+    expect = set()
+    byname = {}
+    for m in z.machines():
+        for s in m.states:
+            byname[s.sid] = (m, s)
+
+    def walk(m):
+        expect.add(m.own_sid)
+        ids = [int(v) for v in f['machines'][m.mid]['a'].split(',')]
+        for r, i in enumerate(ids):
+            cand = [s for s in m.states if s.lib_id == i]
+            if not cand:
+                out.append(('ids', f'machine {m.name} region {r} reports id {i} which the numbering rule does not define'))
+                continue
+            s = cand[0]
+            if s.region != r:
+                out.append(('region', f'machine {m.name} region {r} reports state {s.name} of region {s.region}'))
+            expect.add(s.sid)
+            if s.kind == 'sub':
+                walk(s.sub)
+    if started:
+        walk(z.root)
+    if inside != expect:
+        out.append(('active-set', f'states entered once more than exited {sorted(inside)} but current_state() describes {sorted(expect)}'))
+    if not intro:
+        return out
+    parts = intro.split(' AND:')[0].split(';')
+    for p in parts:
+        if not p or not p.startswith('M'):
+            if p.startswith('R:') and started:
+                d = dict(kv.split('=') for kv in p[2:].split('|') if kv)
+                ar = sorted(int(v) for v in d['ar'].split(',') if v)
+                an = sorted(int(v) for v in d['an'].split(',') if v)
+                lr = sorted(int(v) for v in d['lr'].split(',') if v)
+                ln = sorted(int(v) for v in d['ln'].split(',') if v)
+                exp_ar = sorted(expect - {0})
+                rootm = z.root
+                exp_an = sorted(s.sid for s in rootm.states if s.sid in expect)
+                exp_lr = sorted(s.sid for m in z.machines() for s in m.states)
+                exp_ln = sorted(s.sid for s in rootm.states)
+                if ar != exp_ar:
+                    out.append(('visit', f'visit<active_recursive> saw {ar}, active set is {exp_ar}'))
+                if an != exp_an:
+                    out.append(('visit', f'visit<active_non_recursive> saw {an}, expected {exp_an}'))
+                if lr != exp_lr:
+                    out.append(('visit', f'visit<all_recursive> saw {lr}, expected {exp_lr}'))
+                if ln != exp_ln:
+                    out.append(('visit', f'visit<all_non_recursive> saw {ln}, expected {exp_ln}'))
+            continue
+        head, rest = p.split(':', 1)
+        mid = int(head[1:])
+        m = [mm for mm in z.machines() if mm.mid == mid][0]
+        m_inside = m.own_sid in expect
+        if ctx.cfg in ('m', 'mf', 'mc'):
+            act = {int(t[1:]) for t in rest.split(',') if t.startswith('a')}
+            # is_state_active<S>() asked on machine m for each of its states
+            exp = {s.sid for s in m.states if s.sid in expect} if m_inside else None
+            if started and m_inside and act != exp:
+                out.append(('is_state_active', f'machine {m.name}: is_state_active true for {sorted(act)}, active set {sorted(exp)}'))
+        else:
+            segs = rest.split('|')
+            vis = [int(v) for v in segs[0][1:].split(',') if v] if segs[0].startswith('v') else []
+            byid = [int(v) for v in segs[1][1:].split(',') if v] if len(segs) > 1 and segs[1].startswith('i') else []
+            exp_by = [next((s.sid for s in m.states if s.lib_id == i), -9) for i in range(len(m.states))]
+            if byid != exp_by:
+                out.append(('get_state_by_id', f'machine {m.name}: get_state_by_id gives sids {byid}, documented numbering gives {exp_by}'))
+            if started and m_inside:
+                # visit_current_states: the active states of m and, through a submachine, its active substates
+                def below(mm):
+                    r = []
+                    ids = [int(v) for v in f['machines'][mm.mid]['a'].split(',')]
+                    for i in ids:
+                        s = [q for q in mm.states if q.lib_id == i]
+                        if not s:
+                            continue
+                        r.append(s[0].sid)
+                        if s[0].kind == 'sub':
+                            r.extend(below(s[0].sub))
+                    return r
+                if sorted(vis) != sorted(below(m)):
+                    out.append(('visit_current_states', f'machine {m.name}: visitor saw {sorted(vis)}, active states below it {sorted(below(m))}'))
+    return out
+
+
+ORACLES.update({'C08': o_C08, 'C09': o_C09, 'C03': o_C03})
+STATE_ORACLES = {'C03': s_C03}
